@@ -42,6 +42,16 @@ theorem finish_refines (b : WB) (g : G) (pend : List Ch) (W : Nat) (h : Rel b g 
     rw [erL_rescueMarks _ _ (flushLine_line_noContent _)]
     exact finish_rel _ _ hpl.1
 
+theorem noContent_iff_er_nil (l : TLine) : l.noContent = true ↔ er l = [] := by
+  induction l with
+  | nil => simp [TLine.noContent]
+  | cons e l ih =>
+    cases e with
+    | cell c => simp [TLine.noContent, Elt.isCell]
+    | frag n =>
+      simp only [TLine.noContent, List.any_cons, Elt.isCell, Bool.false_or] at ih ⊢
+      simpa [er] using ih
+
 /-- the characters of one `add_text` call, with an arbitrary continuation for what follows -/
 theorem addTextGo_refines (W : Nat) (mt wt : Tag) (tail : List Ch) (kI : WB → Except Err (List TLine)) (cs : List Ch) :
     ∀ (b : WB) (g : G) (pend : List Ch) (cur : Bool),
@@ -70,7 +80,7 @@ theorem addTextGo_refines (W : Nat) (mt wt : Tag) (tail : List Ch) (kI : WB → 
         generalize htag : (if cur then wt else mt) = tag
         have hstep : b.addChar .normal mt wt cur c =
             .ok ((if b.linelen > 0 && b.wslen = 0 then { b with spacetag := some tag, wslen := 1 } else b), cur) := by
-          have hd : decide (b.wordlen > 0) = false := by simp [hwl0]
+          have hd : (!b.word.noContent) = false := by simp [(noContent_iff_er_nil b.word).mpr hw0]
           simp only [WB.addChar, hws, hd, Bool.and_false, htag, WS.preserve, Bool.false_eq_true, if_false, if_true]
           split <;> rfl
         rw [hstep, andThen_ok]
@@ -90,7 +100,10 @@ theorem addTextGo_refines (W : Nat) (mt wt : Tag) (tail : List Ch) (kI : WB → 
         have hstep : b.addChar .normal mt wt cur c =
             andThen (b.flushWord .normal) (fun b' =>
               .ok ((if b'.linelen > 0 && b'.wslen = 0 then { b' with spacetag := some tag, wslen := 1 } else b'), cur)) := by
-          simp only [WB.addChar, hws, hwl, htag, decide_true, Bool.and_self, if_true, WS.preserve, Bool.false_eq_true, if_false]
+          have hnc : (!b.word.noContent) = true := by
+            have : ¬ b.word.noContent = true := fun hn => hp (by rw [← h.word]; exact (noContent_iff_er_nil b.word).mp hn)
+            simpa using this
+          simp only [WB.addChar, hws, hnc, htag, Bool.and_self, if_true, WS.preserve, Bool.false_eq_true, if_false]
           cases b.flushWord .normal with
           | error e => rfl
           | ok b' => simp only [andThen_ok]; split <;> rfl
